@@ -148,6 +148,10 @@ func VerifC07(p C07Params) *vsched.Scenario {
 			go func() {
 				defer wg.Done()
 				for _, sym := range script {
+					if sym == "w" {
+						vsched.Quiesce() // the caller waits until everything submitted so far has been processed
+						continue
+					}
 					ti := int(sym[len(sym)-1] - '0')
 					op := sym[:len(sym)-1]
 					t := s.tasks[ti]
@@ -358,6 +362,10 @@ func c07judge(p C07Params, s *c07state, submitEnd int) {
 		}
 		ok := true
 		for _, sym := range p.Scripts[0] {
+			if sym == "w" {
+				ok = false
+				continue
+			}
 			ti := int(sym[len(sym)-1] - '0')
 			switch sym[:len(sym)-1] {
 			case "q":
